@@ -64,3 +64,13 @@ package layers
 //@   requires len(ip.Options) <= 1073741824
 //@   ensures 0 <= result && result % 4 == 0
 //@   loop 0: invariant 0 <= rangeindex+1 && rangeindex+1 <= len(ip.Options) && 0 <= optionSize && optionSize <= 255*(rangeindex+1)
+
+// net.IP.To16 returns nil or a 16-byte address (stdlib fact).
+//@ extern (ip net.IP) To16() net.IP
+//@   ensures result == nil || len(result) == 16
+//@   modifies nothing
+
+// LLDP: each TLV window of the value loop is written completely (type/length, value, zero fill) within its iteration.
+//@ func (c *LinkLayerDiscovery) SerializeTo(b gopacket.SerializeBuffer, opts gopacket.SerializeOptions) error
+//@   props C07
+//@   loop 1: invariant 2 <= i && inited(vb, 0, i)
